@@ -217,6 +217,38 @@ Section Front.
       transitivity (X * (Wm sub * rinv (Wm sub))); [ring|]; rewrite HW;
       transitivity (X * (Wm full * rinv (Wm full))); [rewrite HWF; ring | ring] end.
   Qed.
+  (* ---------------------------------------------------------------- ANY family of sub-masks (round 3) *)
+  (* the real-space term of a stack index is W_full times its image in the full reconstruction *)
+  Lemma pixel_term_full stack full bF m d r1 r2 : (1 <= bF)%nat -> (m < ctx_n full)%nat ->
+    Wm full * rinv (Wm full) = rI ->
+    pixel_term stack full m r1 r2 = Wm full * nth m (rec1 stack full full bF) d r1 r2.
+  Proof.
+    intros HbF Hm HWF. rewrite mask_single_closed by assumption.
+    rewrite (contrib_via_full stack full full) by (try assumption; apply same_shape_refl || apply submask_refl).
+    rewrite index_map_self. fold (ctx_n full). rewrite seq_nth by exact Hm. cbn [Nat.add].
+    unfold pixel_term.
+    match goal with |- ?X = _ * (_ * _) => transitivity (X * (Wm full * rinv (Wm full))); [rewrite HWF; ring | ring] end.
+  Qed.
+
+  (* sub-masks that overlap or do not cover the construction mask: the weighted sum of their reconstructions is
+     the sum of W_full * (image of the full reconstruction) over the stack indices of all parts, each index counted
+     once per part that contains it *)
+  Theorem submask_any_family_lemma stack full (parts : list mask2) (bsz : mask2 -> nat) bF d r1 r2 :
+    (forall part, In part parts -> same_shape full part /\ submask full part /\ (1 <= bsz part)%nat
+                                   /\ Wm part * rinv (Wm part) = rI) ->
+    (forall part m, In part parts -> In m (index_map full part) -> (m < ctx_n full)%nat) ->
+    (1 <= bF)%nat -> Wm full * rinv (Wm full) = rI ->
+    suml (map (fun part => Wm part * corrected_bf rO radd (rec1 stack full part (bsz part)) r1 r2) parts)
+    = suml (map (fun m => Wm full * nth m (rec1 stack full full bF) d r1 r2) (concat (map (index_map full) parts))).
+  Proof.
+    intros Hparts Hlt HbF HWF.
+    rewrite (suml_concat_map Rth). rewrite map_map.
+    apply suml_map_ext. intros part Hin.
+    destruct (Hparts part Hin) as [Hsh [Hsub [Hb HW]]].
+    rewrite (weighted_bf_of_submask stack full part (bsz part) r1 r2 Hsh Hsub Hb HW).
+    apply suml_map_ext. intros m Hm.
+    apply pixel_term_full; try assumption. exact (Hlt part m Hin Hm).
+  Qed.
 End Front.
 
 Arguments mask_single_closed {R rO radd rmul conj half rinv n1 ws1 n2 ws2 N1 w1 Ninv1 N2 w2 Ninv2 kern wtd env garbage}
